@@ -11,8 +11,25 @@ Init == i = 0
 Next == \/ i = 0 /\ i' \in {0 - b : b \in 1..Buckets}
         \/ i < 0 /\ i' \in {k \in 1..N : k % Buckets = (0 - i) - 1}
 
+RECURSIVE Lex(_, _, _)
+Lex(a, b, k) == IF k > Len(a) /\ k > Len(b) THEN 0
+                ELSE IF k > Len(a) THEN 0 - 1
+                ELSE IF k > Len(b) THEN 1
+                ELSE IF a[k] < b[k] THEN 0 - 1
+                ELSE IF a[k] > b[k] THEN 1
+                ELSE Lex(a, b, k + 1)
+
+(* key texts compare, order and hash as the byte strings they hold, whatever their two lengths *)
+KeyRel(r) == IF r.result = "panic" THEN "panic"
+             ELSE LET c == Lex(r.bytes, r.other, 1)
+                  IN IF r.eq # (c = 0) THEN "key-text-equality-is-not-byte-equality"
+                     ELSE IF r.ord # c THEN "key-text-order-is-not-byte-order"
+                     ELSE IF c = 0 /\ ~r.heq THEN "equal-key-texts-hash-differently"
+                     ELSE "ok"
+
 Verdict(r) ==
-  IF r.fn # "keyparse" THEN "unknown-record"
+  IF r.fn = "keyrel" THEN KeyRel(r)
+  ELSE IF r.fn # "keyparse" THEN "unknown-record"
   ELSE IF r.result \in {"panic", "panic-after-accept"} THEN "panic"
   ELSE LET b == r.bytes
            long == r.len > 130                       \* only RSA material is that long; its bytes are not needed by the predicate
